@@ -29,6 +29,9 @@ type Ctx struct {
 	Tier      string
 	VerifDir  string
 	OutDir    string
+	// AssumeFalse: regex of conditions assumed never to hold (package-level unsafe switches);
+	// success-implies rules ignore paths on which they hold.
+	AssumeFalse string
 	Obls      []Obligation
 	Explain   []string // what is decided / not decided
 	Assume    []string
@@ -322,3 +325,5 @@ func (c *Ctx) ConstInt(pkgShort, name string) (int64, bool) {
 	v, exact := constant.Int64Val(obj.Val())
 	return v, exact
 }
+
+func sortStrings(s []string) { sort.Strings(s) }
